@@ -25,6 +25,8 @@ func init() {
 			{ID: "C11.R1", Doc: "metadata entry layout: encoder and decoder agree with each other and with the protobuf field table; decoder is total", Run: c11r1},
 			{ID: "C11.R2", Doc: "NewServerStream attaches metadata only under metaID == invoke packet's stream id; metaID/meta come only from the metadata branch", Run: c11r2},
 			{ID: "C11.R3", Doc: "client: metadata packet precedes the invoke on the same stream, is encoded from the call's own ctx into a call-private buffer", Run: c11r3},
+			{ID: "C11.R4", Alias: "C18.R4"},
+			{ID: "C11.S1", Alias: "C18.R2"},
 		},
 	})
 }
